@@ -191,11 +191,37 @@ func staticCallee(call ssa.CallInstruction) *ssa.Function {
 	return call.Common().StaticCallee()
 }
 
+// thunkMethod: call is a static call of the synthetic wrapper go/ssa creates for an interface method
+// expression (`I.M(x, args...)`, e.g. after a higher-order helper was inlined): the method invoked.
+func thunkMethod(cc *ssa.CallCommon) *types.Func {
+	g := cc.StaticCallee()
+	if g == nil || g.Synthetic == "" || len(g.Blocks) != 1 || len(g.Params) == 0 || len(cc.Args) == 0 {
+		return nil
+	}
+	var m *types.Func
+	n := 0
+	for _, in := range g.Blocks[0].Instrs {
+		if ci, ok := in.(ssa.CallInstruction); ok {
+			n++
+			if c2 := ci.Common(); c2.IsInvoke() && c2.Value == ssa.Value(g.Params[0]) {
+				m = c2.Method
+			}
+		}
+	}
+	if n != 1 {
+		return nil
+	}
+	return m
+}
+
 // ifaceCall: if call invokes interface method m returns (receiver value, method).
 func ifaceCall(call ssa.CallInstruction) (ssa.Value, *types.Func) {
 	cc := call.Common()
 	if cc.IsInvoke() {
 		return cc.Value, cc.Method
+	}
+	if m := thunkMethod(cc); m != nil {
+		return cc.Args[0], m
 	}
 	return nil, nil
 }
@@ -205,6 +231,9 @@ func callArgs(call ssa.CallInstruction) []ssa.Value {
 	cc := call.Common()
 	if cc.IsInvoke() {
 		return cc.Args
+	}
+	if thunkMethod(cc) != nil {
+		return cc.Args[1:]
 	}
 	if f := cc.StaticCallee(); f != nil && f.Signature.Recv() != nil && len(cc.Args) > 0 {
 		return cc.Args[1:]
@@ -217,6 +246,9 @@ func callRecv(call ssa.CallInstruction) ssa.Value {
 	cc := call.Common()
 	if cc.IsInvoke() {
 		return cc.Value
+	}
+	if thunkMethod(cc) != nil {
+		return cc.Args[0]
 	}
 	if f := cc.StaticCallee(); f != nil && f.Signature.Recv() != nil && len(cc.Args) > 0 {
 		return cc.Args[0]
@@ -1053,8 +1085,66 @@ func (st pstate) condBase(c ssa.Value) (base ssa.Value, neg, isNilTest bool) {
 			}
 			return x, neg, true
 		}
+		// `v == K` and `v != K` (K a constant) are one fact: both are expressed through the first
+		// such comparison of the function
+		if rep, flip := cmpRepresentative(bo); rep != nil {
+			if flip {
+				neg = !neg
+			}
+			return rep, neg, false
+		}
 	}
 	return c, neg, false
+}
+
+var cmpRepCache = map[*ssa.Function]map[string]*ssa.BinOp{}
+
+// cmpRepresentative: for `x == K` / `x != K` with a non-nil constant K returns the first comparison of
+// the same operand with the same constant in the function, and whether bo has the opposite operator.
+func cmpRepresentative(bo *ssa.BinOp) (*ssa.BinOp, bool) {
+	keyOf := func(b *ssa.BinOp) string {
+		x, y := b.X, b.Y
+		if _, isC := x.(*ssa.Const); isC {
+			x, y = y, x
+		}
+		k, isC := y.(*ssa.Const)
+		if !isC || k.Value == nil {
+			return ""
+		}
+		if _, isC2 := x.(*ssa.Const); isC2 {
+			return ""
+		}
+		return fmt.Sprintf("%p|%s|%s", canon(x), k.Value.ExactString(), k.Type().String())
+	}
+	fn := bo.Parent()
+	if fn == nil {
+		return nil, false
+	}
+	tab, ok := cmpRepCache[fn]
+	if !ok {
+		tab = map[string]*ssa.BinOp{}
+		for _, b := range fn.Blocks {
+			for _, in := range b.Instrs {
+				if c, isB := in.(*ssa.BinOp); isB && (c.Op == token.EQL || c.Op == token.NEQ) {
+					if k := keyOf(c); k != "" {
+						if _, dup := tab[k]; !dup {
+							tab[k] = c
+						}
+					}
+				}
+			}
+		}
+		cmpRepCache[fn] = tab
+	}
+	k := keyOf(bo)
+	if k == "" {
+		return nil, false
+	}
+	rep := tab[k]
+	if rep == nil || rep == bo {
+		return nil, false
+	}
+	return rep, rep.Op != bo.Op
 }
 
 // evalCond: 1 true, 0 false, -1 unknown.
@@ -1374,6 +1464,78 @@ func walkThreaded(start pstate, visit func(pstate) bool, skip func(from *ssa.Bas
 			}
 		}
 	}
+}
+
+// reachThreaded: target is reachable from `from` (exclusive) on a feasible path (phis resolved by the
+// join through which they were entered, repeated / decided branch conditions followed only in the
+// feasible direction) that takes none of the edges in skip and passes no instruction satisfying
+// barrier.
+func reachThreaded(from, target ssa.Instruction, skip map[*ssa.BasicBlock]int, barrier func(ssa.Instruction) bool) bool {
+	scan := func(b *ssa.BasicBlock, i int) int { // 0 fall through, 1 blocked, 2 found
+		for ; i < len(b.Instrs); i++ {
+			in := b.Instrs[i]
+			if in == target {
+				return 2
+			}
+			if barrier != nil && barrier(in) {
+				return 1
+			}
+		}
+		return 0
+	}
+	switch scan(from.Block(), instrIndex(from)+1) {
+	case 2:
+		return true
+	case 1:
+		return false
+	}
+	skipF := func(b *ssa.BasicBlock, idx int) bool {
+		k, ok := skip[b]
+		return ok && k == idx
+	}
+	found := false
+	seen := map[pstate]bool{}
+	var stack []pstate
+	push := func(st pstate) {
+		follow := []int{}
+		for i := range st.b.Succs {
+			follow = append(follow, i)
+		}
+		if iff, ok := condOf(st.b); ok {
+			switch st.evalCond(iff.Cond) {
+			case 1:
+				follow = []int{0}
+			case 0:
+				follow = []int{1}
+			}
+		}
+		for _, i := range follow {
+			if skipF(st.b, i) {
+				continue
+			}
+			nx := st.enter(i)
+			if !seen[nx] {
+				seen[nx] = true
+				stack = append(stack, nx)
+			}
+		}
+	}
+	push(pstate{b: from.Block()})
+	for len(stack) > 0 && !found {
+		if len(seen) > 50000 {
+			// give up on path sensitivity: plain reachability
+			return reachAvoidingF(from, false, skip, func(i ssa.Instruction) bool { return i == target }, barrier) != nil
+		}
+		st := stack[len(stack)-1]
+		stack = stack[:len(stack)-1]
+		switch scan(st.b, 0) {
+		case 2:
+			found = true
+		case 0:
+			push(st)
+		}
+	}
+	return found
 }
 
 // enter gives the state after following successor i of st.b.
@@ -1960,4 +2122,30 @@ func sortStrings(s []string) {
 			s[j], s[j-1] = s[j-1], s[j]
 		}
 	}
+}
+
+// valuesReaching: the values v can have when instruction `at` is executed, with phis resolved along
+// the feasible paths from the function's entry (path-sensitive, see pstate). A phi that cannot be
+// resolved on some path is returned as it is.
+func valuesReaching(v ssa.Value, at ssa.Instruction) []ssa.Value {
+	fn := at.Parent()
+	if fn == nil || len(fn.Blocks) == 0 {
+		return []ssa.Value{v}
+	}
+	seen := map[ssa.Value]bool{}
+	var out []ssa.Value
+	walkThreaded(pstate{b: fn.Blocks[0]}, func(st pstate) bool {
+		if st.b == at.Block() {
+			r := st.resolve(v)
+			if !seen[r] {
+				seen[r] = true
+				out = append(out, r)
+			}
+		}
+		return true
+	}, nil)
+	if len(out) == 0 {
+		return []ssa.Value{v}
+	}
+	return out
 }
